@@ -10,7 +10,7 @@ git checkout -q -- . ; git clean -qfd -e OUT -e target
 res_apply=ok
 git apply "$dir/patch.diff" 2>/dev/null || res_apply=FAILED
 suite=skipped; demo_with=skipped; demo_without=skipped
-demo_cmd=$(python3 -c "import json,sys;print(json.load(open('$dir/meta.json')).get('demo_cmd',''))" 2>/dev/null | sed -e 's#^cd [^&]*&& *##' -e 's#CARGO_TARGET_DIR=[^ ]* ##g')
+demo_cmd=$(python3 -c "import json,sys;print(json.load(open('$dir/meta.json')).get('demo_cmd',''))" 2>/dev/null | sed -e 's#^cd [^&]*&& *##' -e 's#CARGO_TARGET_DIR=[^ ]* ##g' -e 's#git apply [^&]*&& *##')
 if [ "$res_apply" = ok ]; then
   suite=$(cargo nextest run --workspace --no-fail-fast --offline --test-threads 6 --build-jobs 6 2>&1 | grep -E "Summary|error(\[|:)" | tail -3)
   git apply "$dir/demo.diff" 2>/dev/null || echo "demo.diff does not apply"
